@@ -561,6 +561,9 @@ func buildCatalog(thorough bool) *catalog {
 		c.add("missing-input-index", "past", w0, ph, lab.BOpt{Txs: txs(one(out{Op: wire.OutPoint{Hash: t0.Op.Hash, Index: 999}, Value: coin}))}, "missing-input")
 		sp := w0.Outs["spent"] // (a different transaction than the ancestor's spender, which would also trip BIP30)
 		c.add("spent-in-ancestor", "past", w0, ph, lab.BOpt{Txs: txs(spendTx(1, []out{sp}, 0xffffffff, []*wire.TxOut{txo(sp.Value-7, lab.OpTrue)}, 0))}, "missing-input")
+		if spp, ok := w0.Outs["spent-in-parent"]; ok {
+			c.add("spent-in-parent", "past", w0, ph, lab.BOpt{Txs: txs(spendTx(1, []out{spp}, 0xffffffff, []*wire.TxOut{txo(spp.Value-9, lab.OpTrue)}, 0))}, "missing-input")
+		}
 		a := one(t0)
 		b := spendTx(1, []out{t0}, 0xffffffff, []*wire.TxOut{txo(coin-1, lab.OpTrue), txo(1, lab.OpTrue)}, 0)
 		c.add("spent-in-block", "at", w0, ph, lab.BOpt{Txs: txs(a, one(t1))})
